@@ -48,6 +48,30 @@ class Ctx:
         r["rec"] = rec
         return r
 
+    def lemma(self, name, cinit=None, timeout=600):
+        """an unbounded-integer lemma of the specification (spec/lemmas/<name>.tla) discharged by Apalache: Inv must hold,
+        the negative control InvBad must be refuted.  A failure is a failure of the specification, not of the code."""
+        import subprocess
+        d = os.path.join(self.work, "apa_" + name)
+        os.makedirs(d, exist_ok=True)
+        src = os.path.join(tlc.SPEC_DIR, "lemmas", name + ".tla")
+        res = {}
+        t0 = time.time()
+        for inv, want in (("Inv", "OK"), ("InvBad", "ERROR")):
+            cmd = ["apalache-mc", "check", "--init=Init", "--inv=" + inv, "--length=0", "--out-dir=" + d] + (["--cinit=" + cinit] if cinit else []) + [src]
+            try:
+                r = subprocess.run(cmd, cwd=d, stdout=subprocess.PIPE, stderr=subprocess.STDOUT, text=True, timeout=timeout)
+                out = r.stdout
+            except subprocess.TimeoutExpired:
+                out = "TIMEOUT"
+            res[inv] = "OK" if "EXITCODE: OK" in out else ("ERROR" if "EXITCODE: ERROR" in out else "UNKNOWN")
+            if res[inv] != want:
+                raise Machinery("lemma %s: %s is %s (expected %s)\n%s" % (name, inv, res[inv], want, out[-1500:]))
+        self.p1.append({"module": "lemmas/" + name, "config": "apalache check --length=0 (unbounded integers)", "constants": {},
+                        "invariants": ["Inv (holds)", "InvBad (negative control, refuted)"], "properties": [], "states": 1, "distinct": 1, "depth": 0,
+                        "wall_s": round(time.time() - t0, 1), "ok": True, "violated": None})
+        shutil.rmtree(d, ignore_errors=True)
+
     def dump_values(self, r, var):
         vals = []
         seen = set()
